@@ -1,11 +1,16 @@
 (* C10 — recovering a signer from arbitrary raw transaction bytes is total and sound.
-   Statements only; proofs live in Tx/RecoverProofs*.v.
+   Statements only; proofs live in Tx/RecoverProofs.v (totality) and Tx/RecoverProofs2.v (soundness).
 
    The model (Tx/RecoverModel.v) takes the hash function [H] and the secp256k1 library call
-   [RD = (s *SignatureData).RecoverDirect] as parameters; every theorem quantifies over them. *)
+   [RD = (s *SignatureData).RecoverDirect] as parameters; every theorem quantifies over them and
+   states the one law of [RD] it needs as a hypothesis (both laws are C05's subject).
+   Specification side: Tx/Spec.v (transaction preimages written from the Yellow Paper, EIP-155,
+   EIP-2718, EIP-1559 over the Yellow-Paper RLP of Rlp/Spec.v) and Tx/Norm.v (Go struct -> fields). *)
 From Coq Require Import List NArith ZArith Lia Bool.
 From Coq Require Import Init.Byte.
-From FFS Require Import Base.Res Base.Bytes Rlp.Model Tx.Model Tx.RecoverModel Tx.RecoverProofs.
+From FFS Require Import Base.Res Base.Bytes Rlp.Model Rlp.Spec Rlp.Proofs Tx.Model Tx.Spec Tx.Norm
+  Tx.RecoverModel Tx.RecoverProofs Tx.RecoverProofs2 Tx.RecoverSecp.
+From FFS Require Crypto.Ecdsa Secp.Model Secp.Proofs.
 Import ListNotations.
 
 (* 1. Totality: for every byte string and every chain id, none of the four entry points panics
@@ -20,3 +25,198 @@ Theorem C10_total :
       DecodeEIP1559SignaturePayload bs chain <> Panic.
 Proof. exact C10_total_all. Qed.
 Print Assumptions C10_total.
+
+(* 2. Soundness.  Whenever RecoverRawTransaction returns (address, transaction, payload), for a
+      chain id in the int64 range of non-negative values:
+      - legacy input: the input decodes to a list; the integers (r,s) at positions 7,8 verify over
+        H(payload) for a key with the returned address; the payload is the *original-format* preimage
+        of the returned fields when the V element is 27/28 and the *EIP-155* preimage for the supplied
+        chain otherwise (V then being 35/36 + 2*chain in int64 arithmetic);
+      - type-0x02 input: the embedded chain id equals the supplied one; (r,s) at positions 10,11
+        verify over H(payload) for a key with the returned address; the payload is 0x02 || RLP of the
+        EIP-1559 list of the returned fields *with the access list found in the input*.
+      [_partial]: the specification (Tx/Spec.v) and the returned Transaction have no access list, so
+      "the payload is the specification preimage of the returned fields" holds exactly when the
+      input's access list is empty (theorem 3); for a non-empty one it fails (theorem 4, known
+      finding C10/eip1559-access-list-dropped). *)
+Theorem C10_sound_partial :
+  forall (H : bytes -> bytes) (RD : sigdata -> bytes -> Z -> res bytes)
+         (PubKey : Type) (addr_of : PubKey -> bytes) (verify : PubKey -> bytes -> Z -> Z -> Prop),
+    (forall v r s d c a, RD (v, r, s) d c = Ok a -> exists q, a = addr_of q /\ verify q d r s) ->
+    forall bs chain a t p, (0 <= chain < 2 ^ 63)%Z ->
+      RecoverRawTransaction H RD bs chain = Ok (a, t, p) ->
+      (exists l pos e6 e7 e8 q,
+        Decode bs = Ok (Some (Lst l), pos) /\
+        nth_error l 6 = Some e6 /\ nth_error l 7 = Some e7 /\ nth_error l 8 = Some e8 /\
+        a = addr_of q /\ verify q (H p) (Z.of_N (elem_int e7)) (Z.of_N (elem_int e8)) /\
+        ( (v_is_legacy (legacy_v e6) /\ p = spec_preimage Original (norm t) 0) \/
+          (~ v_is_legacy (legacy_v e6) /\ v_is_eip155 (legacy_v e6) chain /\
+           p = spec_preimage Eip155 (norm t) (Z.to_N chain)) ))
+      \/
+      (exists rest l pos c0 al e10 e11 q,
+        bs = x02 :: rest /\ Decode rest = Ok (Some (Lst l), pos) /\
+        nth_error l 0 = Some (Str c0) /\ Z.of_N (of_be c0) = chain /\
+        nth_error l 8 = Some (Lst al) /\ nth_error l 10 = Some e10 /\ nth_error l 11 = Some e11 /\
+        a = addr_of q /\ verify q (H p) (Z.of_N (elem_int e10)) (Z.of_N (elem_int e11)) /\
+        p = x02 :: RLP (L (eip1559_body_al (norm t) (Z.to_N chain) (L (map to_tree al))))).
+Proof. exact RecoverRaw_sound. Qed.
+Print Assumptions C10_sound_partial.
+
+(* 3. With the empty access list the EIP-1559 payload above is the preimage of Tx/Spec.v. *)
+Theorem C10_sound_empty_access_list :
+  forall f c, x02 :: RLP (L (eip1559_body_al f c (L (map to_tree [])))) = spec_preimage Eip1559 f c.
+Proof. exact eip1559_al_empty_preimage. Qed.
+Print Assumptions C10_sound_empty_access_list.
+
+(* 4. The unguarded clause is false of the faithful model: a type-0x02 transaction with a non-empty
+      access list is accepted and the payload is not the specification preimage of the returned
+      fields. *)
+Theorem C10_sound_refuted :
+  exists H RD bs chain a t p,
+    RecoverRawTransaction H RD bs chain = Ok (a, t, p) /\
+    p <> spec_preimage Eip1559 (norm t) (Z.to_N chain).
+Proof. exact sound_access_list_refuted. Qed.
+Print Assumptions C10_sound_refuted.
+
+(* 5. The entry points called directly. *)
+Theorem C10_sound_legacy_entry :
+  forall (H : bytes -> bytes) (RD : sigdata -> bytes -> Z -> res bytes)
+         (PubKey : Type) (addr_of : PubKey -> bytes) (verify : PubKey -> bytes -> Z -> Z -> Prop),
+    (forall v r s d c a, RD (v, r, s) d c = Ok a -> exists q, a = addr_of q /\ verify q d r s) ->
+    forall bs chain a t p, (0 <= chain < 2 ^ 63)%Z ->
+      RecoverLegacyRawTransaction H RD bs chain = Ok (a, t, p) ->
+      exists l pos e6 e7 e8 q,
+        Decode bs = Ok (Some (Lst l), pos) /\
+        nth_error l 6 = Some e6 /\ nth_error l 7 = Some e7 /\ nth_error l 8 = Some e8 /\
+        a = addr_of q /\ verify q (H p) (Z.of_N (elem_int e7)) (Z.of_N (elem_int e8)) /\
+        ( (v_is_legacy (legacy_v e6) /\ p = spec_preimage Original (norm t) 0) \/
+          (~ v_is_legacy (legacy_v e6) /\ v_is_eip155 (legacy_v e6) chain /\
+           p = spec_preimage Eip155 (norm t) (Z.to_N chain)) ).
+Proof. exact RecoverLegacy_sound. Qed.
+Print Assumptions C10_sound_legacy_entry.
+
+Theorem C10_sound_eip1559_entry_partial :
+  forall (H : bytes -> bytes) (RD : sigdata -> bytes -> Z -> res bytes)
+         (PubKey : Type) (addr_of : PubKey -> bytes) (verify : PubKey -> bytes -> Z -> Z -> Prop),
+    (forall v r s d c a, RD (v, r, s) d c = Ok a -> exists q, a = addr_of q /\ verify q d r s) ->
+    forall bs chain a t p,
+      RecoverEIP1559Transaction H RD bs chain = Ok (a, t, p) ->
+      exists rest l pos c0 al e10 e11 q,
+        bs = x02 :: rest /\ Decode rest = Ok (Some (Lst l), pos) /\
+        nth_error l 0 = Some (Str c0) /\ Z.of_N (of_be c0) = chain /\
+        nth_error l 8 = Some (Lst al) /\ nth_error l 10 = Some e10 /\ nth_error l 11 = Some e11 /\
+        a = addr_of q /\ verify q (H p) (Z.of_N (elem_int e10)) (Z.of_N (elem_int e11)) /\
+        p = x02 :: RLP (L (eip1559_body_al (norm t) (Z.to_N chain) (L (map to_tree al)))).
+Proof. exact Recover1559_sound. Qed.
+Print Assumptions C10_sound_eip1559_entry_partial.
+
+(* DecodeEIP1559SignaturePayload returns only the transaction: the first nine elements of its input,
+   re-encoded, are the EIP-1559 preimage of the returned fields (with the input's access list). *)
+Theorem C10_decode_payload_partial :
+  forall bs chain t,
+    DecodeEIP1559SignaturePayload bs chain = Ok t ->
+    exists rest l pos c0 al,
+      bs = x02 :: rest /\ Decode rest = Ok (Some (Lst l), pos) /\
+      nth_error l 0 = Some (Str c0) /\ Z.of_N (of_be c0) = chain /\ nth_error l 8 = Some (Lst al) /\
+      x02 :: encode (Lst (firstn 9 l)) =
+        x02 :: RLP (L (eip1559_body_al (norm t) (Z.to_N chain) (L (map to_tree al)))).
+Proof. exact Decode1559_sound. Qed.
+Print Assumptions C10_decode_payload_partial.
+
+(* 6. Chain id: a type-0x02 input whose embedded chain id (the integer value of the first list
+      element, of any width; a list counts as 0) differs from the supplied chain id is refused by
+      every entry point that accepts type 0x02 — for every chain id, hash and RecoverDirect. *)
+Theorem C10_chain_id :
+  forall (H : bytes -> bytes) (RD : sigdata -> bytes -> Z -> res bytes)
+         rest l pos e0 chain,
+    Decode rest = Ok (Some (Lst l), pos) -> nth_error l 0 = Some e0 ->
+    Z.of_N (elem_int e0) <> chain ->
+    (exists e, RecoverRawTransaction H RD (x02 :: rest) chain = Err e) /\
+    (exists e, RecoverEIP1559Transaction H RD (x02 :: rest) chain = Err e) /\
+    (exists e, DecodeEIP1559SignaturePayload (x02 :: rest) chain = Err e).
+Proof. exact chain_id_mismatch_refused. Qed.
+Print Assumptions C10_chain_id.
+
+(* 7. The same with the secp256k1 layer of property C05 plugged in for [RD]: for every group
+      satisfying the ECDSA laws of Crypto/Ecdsa.v (secp256k1 being the intended instance — that it
+      satisfies them is the trusted mathematical fact of DESIGN §5) and every 32-byte hash, no
+      hypothesis about RecoverDirect is left: it is C05's model (Secp/Model.v: getVNormalized, range
+      checks, FillBytes, RecoverCompact, PublicKeyToAddress), and "verifies" is textbook ECDSA
+      verification [ecdsa_verify] of (r,s) over the first 32 bytes of H(payload). *)
+Theorem C10_total_secp256k1 :
+  forall (o : Crypto.Ecdsa.group_ops) (H : bytes -> bytes), (forall x, length (H x) = 32%nat) ->
+    forall (bs : bytes) (chain : Z),
+      RecoverRawTransaction H (RD_secp o H) bs chain <> Panic /\
+      RecoverLegacyRawTransaction H (RD_secp o H) bs chain <> Panic /\
+      RecoverEIP1559Transaction H (RD_secp o H) bs chain <> Panic /\
+      DecodeEIP1559SignaturePayload bs chain <> Panic.
+Proof. exact total_secp. Qed.
+Print Assumptions C10_total_secp256k1.
+
+Theorem C10_sound_secp256k1_partial :
+  forall (o : Crypto.Ecdsa.group_ops), Crypto.Ecdsa.laws o ->
+  forall (H : bytes -> bytes), (forall x, length (H x) = 32%nat) ->
+    forall bs chain a t p, (0 <= chain < 2 ^ 63)%Z ->
+      RecoverRawTransaction H (RD_secp o H) bs chain = Ok (a, t, p) ->
+      (exists l pos e6 e7 e8 q,
+        Decode bs = Ok (Some (Lst l), pos) /\
+        nth_error l 6 = Some e6 /\ nth_error l 7 = Some e7 /\ nth_error l 8 = Some e8 /\
+        a = secp_addr_of o H q /\
+        secp_verify o q (H p) (Z.of_N (elem_int e7)) (Z.of_N (elem_int e8)) /\
+        ( (v_is_legacy (legacy_v e6) /\ p = spec_preimage Original (norm t) 0) \/
+          (~ v_is_legacy (legacy_v e6) /\ v_is_eip155 (legacy_v e6) chain /\
+           p = spec_preimage Eip155 (norm t) (Z.to_N chain)) ))
+      \/
+      (exists rest l pos c0 al e10 e11 q,
+        bs = x02 :: rest /\ Decode rest = Ok (Some (Lst l), pos) /\
+        nth_error l 0 = Some (Str c0) /\ Z.of_N (of_be c0) = chain /\
+        nth_error l 8 = Some (Lst al) /\ nth_error l 10 = Some e10 /\ nth_error l 11 = Some e11 /\
+        a = secp_addr_of o H q /\
+        secp_verify o q (H p) (Z.of_N (elem_int e10)) (Z.of_N (elem_int e11)) /\
+        p = x02 :: RLP (L (eip1559_body_al (norm t) (Z.to_N chain) (L (map to_tree al))))).
+Proof. exact sound_secp. Qed.
+Print Assumptions C10_sound_secp256k1_partial.
+
+(* 8. What "the format the V element selects" means in terms of the integer V written in the input
+      (the code reduces V to int64 first): original format iff V = 27/28 modulo 2^64, EIP-155 iff
+      V = 35 + 2*chain + parity modulo 2^64. *)
+Theorem C10_legacy_v_meaning :
+  forall vb chain,
+    let V := Z.of_N (of_be vb) in
+    (v_is_legacy (legacy_v (Str vb)) <-> exists p k, (p = 0 \/ p = 1)%Z /\ V = (27 + p + k * 2 ^ 64)%Z) /\
+    (v_is_eip155 (legacy_v (Str vb)) chain <->
+       exists p k, (p = 0 \/ p = 1)%Z /\ V = (35 + 2 * chain + p + k * 2 ^ 64)%Z).
+Proof. exact legacy_v_meaning. Qed.
+Print Assumptions C10_legacy_v_meaning.
+
+(* ---------- non-vacuity ---------- *)
+(* a legacy EIP-155 transaction (chain 1, V = 37) and a type-0x02 transaction are accepted by the
+   model under the trivial parameters (which satisfy both hypotheses used above), so the premises of
+   theorems 2 and 5 are satisfiable; 0x02 alone, 0x02 0x05 and a list in the V position — inputs on
+   which the unrepaired code panicked — are errors. *)
+Example C10_nonvacuous_legacy :
+  let bs := [xc9; x01; x02; x03; x80; x04; x80; x25; x01; x01] in
+  exists a t p, RecoverRawTransaction H_triv RD_triv bs 1 = Ok (a, t, p) /\
+    p = spec_preimage Eip155 (norm t) 1 /\ tx_nonce t = Some 1%Z /\ tx_to t = None.
+Proof. cbv zeta. eexists. eexists. eexists. split; [vm_compute; reflexivity|]. vm_compute. auto. Qed.
+
+Example C10_nonvacuous_eip1559 :
+  let bs := [x02; xcc; x01; x05; x02; x03; x04; x80; x06; x80; xc0; x01; x07; x08] in
+  exists a t p, RecoverRawTransaction H_triv RD_triv bs 1 = Ok (a, t, p) /\
+    p = spec_preimage Eip1559 (norm t) 1 /\ tx_nonce t = Some 5%Z.
+Proof. cbv zeta. eexists. eexists. eexists. split; [vm_compute; reflexivity|]. vm_compute. auto. Qed.
+
+Example C10_nonvacuous_laws :
+  (forall v r s d c, (0 <= r)%Z -> (0 <= s)%Z -> RD_triv (v, r, s) d c <> Panic) /\
+  (forall v r s d c a, RD_triv (v, r, s) d c = Ok a ->
+     exists q : unit, a = (fun _ => repeat x01 20) q /\ (fun _ _ _ _ => True) q d r s).
+Proof. split; [discriminate|]. intros v r s d c a X. injection X as <-. exists tt. auto. Qed.
+
+Example C10_repaired_witnesses :
+  is_err (RecoverRawTransaction H_triv RD_triv [x02] 1) = true /\
+  is_err (RecoverRawTransaction H_triv RD_triv [x02; x05] 1) = true /\
+  is_err (RecoverRawTransaction H_triv RD_triv [xc9; x80; x80; x80; x80; x80; x80; xc0; x80; x80] 1) = true /\
+  is_err (RecoverLegacyRawTransaction H_triv RD_triv [x05] 1) = true /\
+  is_err (RecoverRawTransaction H_triv RD_triv
+            [x02; xd4; x89; x01; x00; x00; x00; x00; x00; x00; x00; x01; x05; x02; x03; x04; x80; x06; x80; xc0; x01; x07; x08] 1) = true.
+Proof. vm_compute. auto. Qed.
